@@ -603,7 +603,20 @@ enum Op {
     Undelegate { parent: usize, child: usize },
     AddMember { a: usize, b: Nd },
     DelMember { a: usize, b: Nd },
+    /// raw graph edge of an arbitrary type (classified by the MODEL from the type string)
+    RawEdge { a: usize, b: Nd, ty: &'static str, cap: u64, sig: u8, undirected: bool },
     Sleep { ms: u64 },
+}
+
+/// edge types outside / inside `ALLOWED_TRAVERSAL_EDGES`; the model classifies them from the string
+const OTHER_TYPES: &[&str] = &["OWNS", "member", "XMEMBER", "ADMIN", "VAULT_ACCES", "vault_access_admin", "MEMBE", "ADMIN_OF_VAULT_ACCESS_ADMIN", "MANAGES_WRITE"];
+const MEMBERISH_TYPES: &[&str] = &["MEMBER", "MEMBER_OF", "MEMBERSHIP_ADMIN", "MEMBER_READ"];
+const ACCESS_TYPES: &[&str] = &["VAULT_ACCESS_FOO", "VAULT_ACCESS_READ", "VAULT_ACCESS_WRITE", "VAULT_ACCESS_ADMIN", "VAULT_ACCESS", "VAULT_ACCESSX_ADMIN", "VAULT_ACCESS_READ_WRITE", "VAULT_ACCESS_ADMIN_READ"];
+
+/// harness-side reading of the type string, used ONLY to keep the oracle's bookkeeping (`members`) in step;
+/// the expected answer always comes from the model's own classification
+fn is_memberish(ty: &str) -> bool {
+    ty.starts_with("MEMBER")
 }
 
 /// outcome of one op: true = keep going, false = history aborted (time-ambiguous call)
@@ -876,6 +889,65 @@ fn exec(w: &mut World, m: &mut Model, rep: &mut Report, r: &mut Rng, stream: &st
                 Err(e) => rep.note(&format!("create_edge MEMBER failed: {e}")),
             }
         }
+        Op::RawEdge { a, b, ty, cap, sig, undirected } => {
+            let from = w.node_id(&w.idents[*a]);
+            let Some(to) = w.nd_node(*b) else { return true };
+            let mut props = HashMap::new();
+            if *cap != 0 {
+                props.insert("vault_capacity".to_string(), PropertyValue::Int(*cap as i64));
+            }
+            // signature classes: 0 = random signature + timestamp (must be rejected), 1 = unsigned (legacy: accepted),
+            // 2 = signature bytes WITHOUT timestamp (treated as unsigned: accepted), 3 = a genuine signature
+            // transplanted from root's own edge to the first secret (other source: must be rejected),
+            // 4 = timestamp without signature (unsigned: accepted)
+            let mut sig_ok = true;
+            match sig {
+                0 => {
+                    props.insert("vault_sig".to_string(), PropertyValue::Bytes(r.bytes(32)));
+                    props.insert("vault_sig_ts".to_string(), PropertyValue::Int(12345));
+                    sig_ok = false;
+                }
+                2 => {
+                    props.insert("vault_sig".to_string(), PropertyValue::Bytes(r.bytes(32)));
+                }
+                3 => {
+                    let root = w.node_id(ROOT);
+                    let donor = w.graph.edges_of(root, Direction::Outgoing).ok().and_then(|es| es.into_iter().find(|e| e.properties.contains_key("vault_sig")));
+                    if let (Some(d), true) = (donor, *a != 0) {
+                        if let (Some(sg), Some(ts)) = (d.properties.get("vault_sig"), d.properties.get("vault_sig_ts")) {
+                            props.insert("vault_sig".to_string(), sg.clone());
+                            props.insert("vault_sig_ts".to_string(), ts.clone());
+                            sig_ok = false;
+                        }
+                    }
+                }
+                4 => {
+                    props.insert("vault_sig_ts".to_string(), PropertyValue::Int(12345));
+                }
+                _ => {}
+            }
+            match w.graph.create_edge(from, to, *ty, props, !*undirected) {
+                Ok(id) => {
+                    if is_memberish(ty) {
+                        w.members.push((Nd::Ent(*a), *b, id));
+                        if *undirected {
+                            w.members.push((*b, Nd::Ent(*a), id));
+                        }
+                    }
+                    let (dk, dn) = match b {
+                        Nd::Ent(e) => ("e", *e as u64),
+                        Nd::Sec(s) => ("s", w.sec_ids[*s]),
+                    };
+                    let line = format!("rawedge {a} {dk} {dn} {ty} {cap} {} {}", u8::from(sig_ok), if *undirected { "u" } else { "d" });
+                    rep.hit(&format!("rawedge.type.{ty}"));
+                    rep.hit(&format!("rawedge.sig_class{sig}"));
+                    rep.hit(if *undirected { "rawedge.undirected" } else { "rawedge.directed" });
+                    let t0 = w.now();
+                    let _ = finish!("rawedge", line, "ok".to_string(), t0);
+                }
+                Err(e) => rep.note(&format!("create_edge {ty} failed: {e}")),
+            }
+        }
         Op::DelMember { a, b } => {
             let ids: Vec<u64> = w.members.iter().filter(|(x, y, _)| *x == Nd::Ent(*a) && y == b).map(|t| t.2).collect();
             for id in ids {
@@ -1023,6 +1095,11 @@ fn gen_op(w: &World, r: &mut Rng) -> Op {
             };
             if b == Nd::Ent(a) {
                 Op::Sleep { ms: 1 }
+            } else if r.chance(1, 3) {
+                // an edge of a type outside the allowlist (must change nothing, not even the error kind), or an
+                // allow-listed type that merely starts with MEMBER
+                let ty = if r.chance(2, 3) { *r.pick(OTHER_TYPES) } else { *r.pick(MEMBERISH_TYPES) };
+                Op::RawEdge { a, b, ty, cap: *r.pick(&[0u64, 0, 3]), sig: *r.pick(&[1u8, 1, 0]), undirected: false }
             } else {
                 Op::AddMember { a, b }
             }
@@ -1287,44 +1364,34 @@ fn perm_stream(m: &mut Model, rep: &mut Report, root: &Rng, n: usize) {
             let sx = r.below(2) as usize;
             exec(&mut w, m, rep, &mut r, "perm.setup", &Op::AddMember { a, b: Nd::Sec(sx) });
         }
-        // access edges: through the API (signed) and raw (legacy / odd)
+        // edges of types outside the allowlist, and allow-listed MEMBER-prefixed ones, directed or undirected
+        for _ in 0..r.below(5) {
+            let a = 1 + r.below(ne as u64 - 1) as usize;
+            let b = if r.chance(1, 5) { Nd::Sec(r.below(2) as usize) } else { Nd::Ent(1 + r.below(ne as u64 - 1) as usize) };
+            if b == Nd::Ent(a) {
+                continue;
+            }
+            let ty = if r.chance(1, 2) { *r.pick(OTHER_TYPES) } else { *r.pick(MEMBERISH_TYPES) };
+            let op = Op::RawEdge { a, b, ty, cap: *r.pick(&[0u64, 0, 2]), sig: r.below(5) as u8, undirected: r.chance(1, 3) };
+            exec(&mut w, m, rep, &mut r, "perm.setup", &op);
+        }
+        // access edges: through the API (signed) and raw (legacy / odd type suffixes / capacities / signature classes,
+        // now and then pointing at an entity instead of a secret, or undirected)
         for _ in 0..(1 + r.below(5)) {
             let ent = 1 + r.below(ne as u64 - 1) as usize;
-            let s = r.below(2) as usize;
-            if r.chance(1, 2) {
+            let sx = r.below(2) as usize;
+            if r.chance(2, 5) {
                 let level = 1 + r.below(3) as u8;
-                exec(&mut w, m, rep, &mut r, "perm.setup", &Op::Grant { req: 0, ent, sec: s, level, plain_api: false });
+                exec(&mut w, m, rep, &mut r, "perm.setup", &Op::Grant { req: 0, ent, sec: sx, level, plain_api: false });
             } else {
-                let lc = r.below(5);
-                let ty = match lc {
-                    0 => "VAULT_ACCESS_FOO",
-                    1 => "VAULT_ACCESS_READ",
-                    2 => "VAULT_ACCESS_WRITE",
-                    3 => "VAULT_ACCESS_ADMIN",
-                    _ => "VAULT_ACCESS",
-                };
+                let ty = if r.chance(1, 8) { *r.pick(OTHER_TYPES) } else { *r.pick(ACCESS_TYPES) };
+                let b = if r.chance(1, 8) { Nd::Ent(1 + r.below(ne as u64 - 1) as usize) } else { Nd::Sec(sx) };
+                if b == Nd::Ent(ent) {
+                    continue;
+                }
                 let cap = *r.pick(&[0u64, 0, 1, 2, 3, 9]);
-                let badsig = r.chance(1, 5);
-                let mut props = HashMap::new();
-                if cap != 0 {
-                    props.insert("vault_capacity".to_string(), PropertyValue::Int(cap as i64));
-                }
-                if badsig {
-                    props.insert("vault_sig".to_string(), PropertyValue::Bytes(r.bytes(32)));
-                    props.insert("vault_sig_ts".to_string(), PropertyValue::Int(12345));
-                }
-                let from = w.node_id(&w.idents[ent]);
-                if let Some(to) = w.sec_node[s] {
-                    if w.graph.create_edge(from, to, ty, props, true).is_ok() {
-                        let line = format!("rawaccess {ent} {} {lc} {cap} {}", w.sec_ids[s], u8::from(!badsig));
-                        let a = m.ask(&line);
-                        w.lines.push(line);
-                        rep.hit(&format!("perm.raw.{ty}.cap{cap}.{}", if badsig { "badsig" } else { "unsigned" }));
-                        if a != "ok" {
-                            rep.disagree("perm.setup", json!({"line": w.lines.last()}), "ok", &a);
-                        }
-                    }
-                }
+                let op = Op::RawEdge { a: ent, b, ty, cap, sig: r.below(5) as u8, undirected: r.chance(1, 6) };
+                exec(&mut w, m, rep, &mut r, "perm.setup", &op);
             }
         }
         let mut nontrivial = false;
@@ -1360,7 +1427,8 @@ fn main() {
         "rotate.ok", "rotate.err_denied", "rotate.err_insufficient", "rotate.err_crypto", "delete.ok", "delete.err_denied", "delete.err_insufficient", "delete.err_not_found",
         "grant.ok", "grant.err_denied", "grant.err_insufficient", "grant.err_not_found", "grantttl.ok", "grantttl.err_denied", "revoke.ok", "revoke.err_denied",
         "revoke.err_insufficient", "delegate.ok", "delegate.err_denied", "delegate.err_insufficient", "delegate.err_graph", "undelegate.ok", "undelegate.err_not_found",
-        "list.ok", "addmember.ok", "delmember.ok", "perm.answer.none", "perm.answer.1", "perm.answer.2", "perm.answer.3",
+        "list.ok", "addmember.ok", "delmember.ok", "rawedge.ok", "rawedge.undirected", "rawedge.directed", "rawedge.sig_class0", "rawedge.sig_class1",
+        "rawedge.sig_class2", "rawedge.sig_class3", "rawedge.sig_class4", "rawedge.type.OWNS", "rawedge.type.MEMBER_OF", "rawedge.type.VAULT_ACCESSX_ADMIN", "rawedge.type.VAULT_ACCESS", "rawedge.type.VAULT_ACCESS_FOO", "perm.answer.none", "perm.answer.1", "perm.answer.2", "perm.answer.3",
     ]
     .iter()
     .map(|s| s.to_string())
